@@ -1,4 +1,4 @@
-import Casm.Model.ExprParse
+import Casm.Model.Parse
 import Casm.Model.ExprEval
 /-! Canonical text forms shared with the oracle harness (`harness/src/ops.rs`). -/
 namespace Casm
@@ -46,6 +46,43 @@ def showExpr : Expr → String
 def showExprs : List Expr → String
   | [] => ""
   | e :: es => " " ++ showExpr e ++ showExprs es
+end
+
+def showParamTy : ParamTy → String
+  | .unspecified => "-"
+  | .ruledef n => "r" ++ n
+  | .unsigned n => s!"u{n}"
+  | .signed n => s!"s{n}"
+  | .integer n => s!"i{n}"
+
+def showPatPart : PatPart → String
+  | .whitespace => "ws"
+  | .exact c => "x" ++ hexOfChars [c]
+  | .param n t => "{" ++ n ++ ":" ++ showParamTy t ++ "}"
+
+def showOptExpr : Option Expr → String
+  | some e => showExpr e
+  | none => "-"
+
+mutual
+def showNode : AstNode → String
+  | .addr e => s!"(addr {showExpr e})"
+  | .align e => s!"(align {showExpr e})"
+  | .assert e => s!"(assert {showExpr e})"
+  | .res e => s!"(res {showExpr e})"
+  | .bank n => s!"(bank {n})"
+  | .bankdef b => s!"(bankdef {b.name} bits={showOptExpr b.addrUnit} labelalign={showOptExpr b.labelAlign} addr={showOptExpr b.addrStart} addr_end={showOptExpr b.addrEnd} size={showOptExpr b.addrSize} outp={showOptExpr b.outp} fill={b.fill})"
+  | .data sz es => s!"(data {showSize sz}{showExprs es})"
+  | .fn n ps body => s!"(fn {n} ({" ".intercalate ps}) {showExpr body})"
+  | .ifDir c t f => s!"(if {showExpr c} (then{showNodes t}) {match f with | some f => "(else" ++ showNodes f ++ ")" | none => "-"})"
+  | .include f => s!"(include {hexOfChars f})"
+  | .once => "(once)"
+  | .ruledef n sub rules => s!"(ruledef {n.getD "-"} sub={sub}{String.join (rules.map fun r => " (rule [" ++ " ".intercalate (r.pattern.map showPatPart) ++ "] " ++ showExpr r.expr ++ ")")})"
+  | .instr src => s!"(instr {hexOfChars src})"
+  | .symbol lvl n k ne => s!"(sym {lvl} {n} {match k with | .label => "label" | .constant e => "const " ++ showExpr e} {ne})"
+def showNodes : List AstNode → String
+  | [] => ""
+  | n :: ns => " " ++ showNode n ++ showNodes ns
 end
 
 /-- decode a hex-encoded UTF-8 field of the line protocol -/
